@@ -403,6 +403,63 @@ def rule_cache(ctx):
         ctx.holds('R6', 'Axis.__getitem__ inherits the flag for slices only')
 
 
+def rule_subclass_fields(ctx):
+    """R9: a subclass whose __init__ does not call the base __init__ must initialise every private field the inherited methods read"""
+    ctx.rule('R9', 'subclasses initialise the fields their inherited methods read', 1)
+    P = ctx.P
+    n = 0
+    for ci in P.classes.values():
+        if not ci.module.name.startswith('dimarray.core') and ci.module.name != 'dimarray.dataset':
+            continue
+        init = ci.members.get('__init__')
+        if init is None or init.kind != 'func':
+            continue
+        bases = [b for b in ci.mro[1:] if hasattr(b, 'members') and '__init__' in b.members]
+        if not bases:
+            continue
+        src = ast.unparse(init.value.node)
+        if 'super(' in src or any((b.name + '.__init__') in src for b in bases):
+            continue
+        # fields assigned by the subclass constructor / class attributes along the MRO
+        assigned = set()
+        for node in ast.walk(init.value.node):
+            if isinstance(node, ast.Attribute) and isinstance(node.ctx, ast.Store) and isinstance(node.value, ast.Name) and node.value.id == init.value.params[0]:
+                assigned.add(node.attr)
+        for c in ci.mro:
+            if hasattr(c, 'members'):
+                for k, m in c.members.items():
+                    if m.kind in ('const', 'prop', 'alias'):
+                        assigned.add(k)
+        # fields read by inherited, non-overridden methods
+        missing = {}
+        for b in bases:
+            for k, m in b.members.items():
+                if k in ci.members or k == '__init__':
+                    continue
+                fns = []
+                if m.kind == 'func':
+                    fns = [m.value]
+                elif m.kind == 'prop':
+                    fns = [f for f in m.value.values() if f is not None]
+                for f in fns:
+                    if not f.params:
+                        continue
+                    for node in ast.walk(f.node):
+                        if isinstance(node, ast.Attribute) and isinstance(node.ctx, ast.Load) and isinstance(node.value, ast.Name) \
+                                and node.value.id == f.params[0] and node.attr.startswith('_') and not node.attr.startswith('__') \
+                                and node.attr not in assigned and P.lookup(ci, node.attr) is None:
+                            missing.setdefault(node.attr, f.qualname)
+        n += 1
+        if missing:
+            for fld, where in sorted(missing.items()):
+                ctx.violated('R9', init.value, '%s.__init__ does not set %s' % (ci.name, fld), '%s does not call its base constructor and never sets `%s`, which the inherited %s reads: '
+                             'the object raises AttributeError on that operation (e.g. indexing along a flattened axis)' % (ci.qualname, fld, where.replace('dimarray.', '')))
+        else:
+            ctx.holds('R9', '%s initialises every field its inherited methods read' % ci.name)
+    if not n:
+        ctx.holds('R9', 'no subclass constructor by-passes its base constructor')
+
+
 def rule_forms(ctx):
     ctx.rule('R7', 'constructor forms', 5)
     fi = ctx.fn(AX + '_init_axes')
@@ -528,6 +585,7 @@ def check(ctx):
     rule_cache(ctx)
     rule_forms(ctx)
     rule_env(ctx)
+    rule_subclass_fields(ctx)
     ctx.not_decided += ['equality of arrays built from different argument forms (value level)',
                         'staleness of a MultiAxis label cache caused by another array mutating a shared member axis',
                         'Axes.from_dict ordering by shape (value level)']
